@@ -63,6 +63,8 @@ _add("SmVerif.Tie.Detect", "RsDetector", [_T + "Detect." + n for n in
     "tie_lines_aux tie_lines_total tie_lines tie_trim locate_total tie_locate_sourcemap_reference locate_error_is_io locate_invalid_utf8 valid_hypothesis_needed locate_before_invalid gen_c18_locate gen_c18_first_line gen_c18_none_iff gen_c18_legacy_iff gen_c18_embedded".split()])
 _add("SmVerif.Tie.Detect", "RsDetectCommon", [_T + "Detect." + n for n in "tie_is_sourcemap_common gen_c18_detects_serialised gen_c18_detects_serialised'".split()])
 _add("SmVerif.Tie.Prefix", "RsPrefix", [_T + "Prefix.tie_prefix_source", _T + "Prefix.prefix_source_total"])
+_add("SmVerif.Tie.Builder", "RsBuilder", [_T + n for n in
+    "tie_add_source_with_id tie_add_source tie_add_name tie_add_with_id tie_add tie_add_raw tie_set_source tie_set_source_contents tie_get_source tie_get_source_contents tie_has_source_contents tie_take_mapping tie_step tie_run_along tie_run tie_run_error tie_run_gen add_source_with_id_truncation gen_c13_abs_add_source gen_c13_abs_add_name gen_c13_inv_reachable gen_c13_builder_refines gen_c13_token_resolves".split()])
 # property theorems restated about the generated code (compositions property o tie)
 _P = "SmVerif.Tie.Props."
 _add("SmVerif.Tie.Props", "RsVlq", [_P + n for n in [
@@ -87,7 +89,9 @@ PROP_MODULES = {
     "C07": ["SmVerif.Tie.Vlq", "SmVerif.Tie.Small", "SmVerif.Tie.Decode", "SmVerif.Tie.Lookup", "SmVerif.Tie.Serialize", "SmVerif.Tie.Props"],
     "C11": ["SmVerif.Tie.Vlq", "SmVerif.Tie.Props"],
     "C12": ["SmVerif.Tie.Header", "SmVerif.Tie.Props2"],
-    "C13": ["SmVerif.Tie.Prefix"],
+    "C08": ["SmVerif.Tie.Builder"],
+    "C09": ["SmVerif.Tie.Builder"],
+    "C13": ["SmVerif.Tie.Prefix", "SmVerif.Tie.Builder"],
     "C15": ["SmVerif.Tie.SourceView"],
     "C18": ["SmVerif.Tie.Detect"],
     "C20": ["SmVerif.Tie.RamBundle"],
